@@ -245,7 +245,7 @@ theorem parse_build_covered (x : Sequence) (o : MapOrders) (h : covered x = true
 theorem approx_covered (x : Sequence) (h : covered x = true) :
     approx x (PolyVerif.GbLayout.toSequence (toRec x)) = true := by
   simp only [covered, Bool.and_eq_true, Bool.not_eq_true'] at h
-  obtain ⟨⟨⟨⟨⟨_, hnb⟩, _⟩, _⟩, _⟩, _⟩ := h
+  obtain ⟨⟨⟨⟨⟨_, hnb⟩, _⟩, hfeatRT⟩, _⟩, _⟩ := h
   have hc : ((if x.metadata.locus.circular = true then some PolyVerif.GbLayout.Topology.circular
         else if x.metadata.locus.linear = true then some PolyVerif.GbLayout.Topology.linear else none)
           == some PolyVerif.GbLayout.Topology.circular) = x.metadata.locus.circular := by
@@ -257,7 +257,7 @@ theorem approx_covered (x : Sequence) (h : covered x = true) :
   have hrefs : listApprox refApprox (PolyVerif.Spec.GbStrict.withDefaultIndex x).metadata.references
       (PolyVerif.GbLayout.toRefs 0 (x.metadata.references.map toRRef)) = true := refs_approx _ 0
   unfold approx PolyVerif.GbLayout.toSequence PolyVerif.GbLayout.toLocus toRec
-  simp only [Bool.and_eq_true, beq_iff_eq, hc, hl, hrefs, feats_approx, and_true,
+  simp only [Bool.and_eq_true, beq_iff_eq, hc, hl, hrefs, feats_approx _ hfeatRT, and_true,
     beq_self_eq_true]
 
 end PolyVerif.Lemmas.GbRoundTripG
